@@ -3117,6 +3117,10 @@ class StridedInterval:
             else:
                 ret = StridedInterval(bits=self.bits, stride=new_stride, lower_bound=lower, upper_bound=upper)
 
+            # the bounds above are compared as plain integers, which says nothing for operands that wrap around:
+            # whatever was extrapolated, the result has to contain both operands
+            ret = StridedInterval.pseudo_join(StridedInterval.pseudo_join(ret, self), b)
+
         ret.normalize()
         return ret
 
